@@ -200,10 +200,22 @@ fn replay() -> Option<Value> {
     Some(w["witness"].clone())
 }
 
+#[cfg(descriptive_gate)]
 #[test]
 fn verif_c01_corners() {
+    corners("verif_c01_corners");
+}
+
+/// the same corner list under the compact (generated) step table, build b3
+#[cfg(compact_gate)]
+#[test]
+fn verif_c01_cg_corners() {
+    corners("verif_c01_cg_corners");
+}
+
+fn corners(test_name: &'static str) {
     let env = vlib::env();
-    let mut rec = Recorder::new("C01", "verif_c01_corners");
+    let mut rec = Recorder::new("C01", test_name);
     if let Some(w) = replay() {
         let hc = if w.get("hybrid_case").is_some() { &w["hybrid_case"] } else { &w["w"]["hybrid_case"] };
         let case = HybridCase::from_json(hc);
@@ -238,7 +250,9 @@ fn verif_c01_corners() {
                         padding,
                         hv_bits,
                         world_seed: env.seed.wrapping_mul(1000) + idx as u64,
-                        exec: if idx % 5 == 4 { Exec::Mt(4) } else { Exec::Paused },
+                        // the multi-thread executor cannot tell a stalled run from a slow one except by a long wall-clock
+                        // guard, so it is used where no stall is expected (one shard, or every shard well populated)
+                        exec: if idx % 5 == 4 && (shards == 1 || c >= 5) { Exec::Mt(4) } else { Exec::Paused },
                     };
                     let run = wl::run_hybrid(&case, None);
                     rec.seen("corner_classes", format!("{name}/S{shards}/{}/{}", if malicious { "mal" } else { "sh" }, if padding { "pad" } else { "nopad" }));
@@ -257,10 +271,21 @@ fn verif_c01_corners() {
     rec.finish();
 }
 
+#[cfg(descriptive_gate)]
 #[test]
 fn verif_c01_seeded() {
+    seeded("verif_c01_seeded");
+}
+
+#[cfg(compact_gate)]
+#[test]
+fn verif_c01_cg_seeded() {
+    seeded("verif_c01_cg_seeded");
+}
+
+fn seeded(test_name: &'static str) {
     let env = vlib::env();
-    let mut rec = Recorder::new("C01", "verif_c01_seeded");
+    let mut rec = Recorder::new("C01", test_name);
     if env.replay.is_some() {
         rec.finish();
         return;
@@ -301,6 +326,7 @@ fn verif_c01_seeded() {
 /// Explicit class: small multi-shard inputs and skewed placements (a shard without rows at some
 /// stage). On the current tree these runs exercise the known findings; any *other* failure shape is
 /// reported as a violation.
+#[cfg(descriptive_gate)]
 #[test]
 fn verif_c01_sparse_shards() {
     let env = vlib::env();
